@@ -1150,3 +1150,37 @@ def queue_setters_model(ctx, rule):
         else:
             ctx.ok(rule, st, st.node, "Parameters.%s: installing a queue rebinds the stored list; the previous list object is untouched" % prop)
     ctx.abstract_cases += n
+
+
+def full_groupby_model(ctx, rule):
+    """param._utils.full_groupby interpreted abstractly on an interleaved list (p.x, q.y, p.z, r.w, q.v) grouped by owner --
+    the grouping behind the invalidation watchers of reactive expressions and bound functions.  Specification: one group
+    per distinct key holding ALL the items with that key, in order (grouping consecutive runs only loses the earlier run
+    of an owner whose parameters are separated by another owner's: no watcher for it, the expression goes stale)."""
+    from engine.absint import Interp, Obj, PyFunc, Unsupported
+    from engine.loader import AnalysisError
+    f = ctx.repo.func("param._utils.full_groupby")
+    owners = {k: Obj("owner_" + k) for k in "pqr"}
+    items = [Obj("%s.%s" % (o, nme), owner=owners[o], name=nme) for o, nme in (("p", "x"), ("q", "y"), ("p", "z"), ("r", "w"), ("q", "v"))]
+    key = PyFunc("key", lambda x: ("id", id(x.attrs["owner"])))
+    it = Interp(ctx.hier, inline_module_functions=False)
+    try:
+        outs = it.run_all(f, {"l": list(items), "key": key})
+    except Unsupported as e:
+        raise AnalysisError("%s: absint cannot interpret full_groupby: %s" % (rule, e))
+    if len(outs) != 1 or outs[0].imprecise or outs[0].kind != "return":
+        raise AnalysisError("%s: full_groupby is not interpretable precisely (%s)" % (rule, outs[0].notes[:2] if outs else "no outcome"))
+    ctx.abstract_cases += 1
+    res = outs[0].value
+    pairs = list(res.items()) if isinstance(res, dict) else (list(res) if isinstance(res, (list, tuple)) else None)
+    if pairs is None or not all(isinstance(p, tuple) and len(p) == 2 and isinstance(p[1], list) for p in pairs):
+        raise AnalysisError("%s: full_groupby returns something the model cannot read (%r)" % (rule, res))
+    got = {k: [x.name for x in v] for k, v in pairs}
+    want = {("id", id(owners["p"])): ["p.x", "p.z"], ("id", id(owners["q"])): ["q.y", "q.v"], ("id", id(owners["r"])): ["r.w"]}
+    if got != want or len(pairs) != 3:
+        missing = [n for k, names in want.items() for n in names if n not in got.get(k, [])]
+        ctx.fail(rule, f, f.node, "full_groupby on the interleaved list [p.x, q.y, p.z, r.w, q.v] keyed by owner yields the groups %s: %s -- no invalidation watcher is installed for a "
+                                  "dropped parameter, so an expression that read it stays stale when it changes" % (sorted(got.values()), ("missing " + ", ".join(missing)) if missing else "a key occurs twice"),
+                 key=f.qualname + "::groupby-model", input="rx(bind(f, p.param.x, q.param.y, p.param.z)); read; p.x = 2; read -> stale")
+    else:
+        ctx.ok(rule, f, f.node, "full_groupby groups a non-sorted list completely: one group per key with all its items, in order")
